@@ -291,7 +291,9 @@ class Def:
              "align": self.t.align, "size": self.t.size, "min_size": self.t.min_size,
              "emplacers": self.t.emplacers}
         if self.kind == "struct":
-            m["fields"] = [{"name": fn, "ty": t.rust, "offset": o} for (fn, t), o in zip(self.fields, self.offsets)]
+            m["fields"] = [{"name": fn, "ty": t.rust, "offset": o, "size": t.size, "align": t.align, "sized": t.sized,
+                            "trivial": t.trivial, "kind": t.kind}
+                           for (fn, t), o in zip(self.fields, self.offsets)]
             if not self.sized:
                 m["last_field_offset"] = self.last_field_offset
                 m["min_size_unrounded"] = self.min_size_unrounded
@@ -301,7 +303,8 @@ class Def:
             for i, (vn, st, fs, isdef) in enumerate(self.variants):
                 m["variants"].append({"name": vn, "style": st, "default": isdef,
                                       "discr": (self.discrs[i] if self.discrs else None),
-                                      "fields": [{"name": fn, "ty": t.rust, "offset": o}
+                                      "fields": [{"name": fn, "ty": t.rust, "offset": o, "size": t.size, "align": t.align,
+                                                  "sized": t.sized, "trivial": t.trivial, "kind": t.kind}
                                                  for (fn, t), o in zip(fs, self.variant_offsets[i])]})
             if not self.sized:
                 m["data_min_sizes"] = self.data_min_sizes
